@@ -292,8 +292,35 @@ class Effects:
     MEMOISERS = ('functools.lru_cache', 'functools.cache')
 
     def is_memoised(self, g):
-        return any(e.kind == 'decorator' and e.dst in self.MEMOISERS
-                   for e in self.cg.out(g))
+        if any(e.kind == 'decorator' and e.dst in self.MEMOISERS
+               for e in self.cg.out(g)):
+            return True
+        return g.fq in self.call_form_memoised()
+
+    def call_form_memoised(self):
+        """fq of the functions wrapped by a memoiser in call form anywhere in
+        the package: `h = functools.lru_cache(maxsize=..)(g)`, `lru_cache(g)`,
+        at module level or inside a function (a nested g included)."""
+        idx = self.__dict__.get('_call_form_memo')
+        if idx is not None:
+            return idx
+        idx = self.__dict__['_call_form_memo'] = {}
+        funcs = list(self.cg.p.functions.values())
+        for fi in funcs:
+            for n in own_nodes(fi):
+                if not (isinstance(n, ast.Call) and len(n.args) == 1 and
+                        isinstance(n.args[0], (ast.Name, ast.Attribute))):
+                    continue
+                m = n.func.func if isinstance(n.func, ast.Call) else n.func
+                if not isinstance(m, (ast.Name, ast.Attribute)):
+                    continue
+                r = self.cg.resolve_name_expr(fi, m)
+                if not (r and r[0] == 'ext' and r[1] in self.MEMOISERS):
+                    continue
+                g = self.cg.resolve_name_expr(fi, n.args[0])
+                if g and g[0] in ('func', 'nested'):
+                    idx[g[1].fq] = (fi, n)
+        return idx
 
     def _callee_infos(self, fi, call):
         """[(FuncInfo, precision)] and [(ext name, precision)] for a call."""
@@ -611,7 +638,8 @@ class Effects:
                     self._record_store(fi, a, t, st)
             elif isinstance(t, ast.Name):
                 al = self.alias2(fi, t, st)[0]
-                if record and al and not _immutable_rhs(a.value):
+                if record and al and not _immutable_rhs(a.value) and \
+                        not self._returns_immutable(fi, a.value):
                     self._record(fi, a, 'augmented assignment', norm_src(t), al)
                 v = self.alias2(fi, a.value, st)
                 if t.id in st:
@@ -665,6 +693,21 @@ class Effects:
                 self._scan_calls(fi, a, st)
             return st
         return st
+
+    def _returns_immutable(self, fi, e):
+        """A call of one package function all of whose return values are of
+        an immutable form (tuple(...), a tuple display, a constant): `x += f()`
+        then re-binds x, it cannot write into the object x names."""
+        if not isinstance(e, ast.Call):
+            return False
+        funcs, exts = self._callee_infos(fi, e)
+        funcs = [g for g, prec in funcs if prec == 'exact']
+        if len(funcs) != 1 or exts:
+            return False
+        rets = [n.value for n in own_nodes(funcs[0])
+                if isinstance(n, ast.Return)]
+        return bool(rets) and all(
+            r is not None and _immutable_rhs(r) for r in rets)
 
     def _call_tuple(self, fi, e, state, n):
         """Per-position alias pairs of a call returning an n-tuple literal."""
